@@ -170,16 +170,6 @@ Qed.
 Definition get_ns (s : st) (v : Z) (s' : st) : Prop :=
   s_ssl s' = s_ssl s /\ avail s' <= avail s /\ ((0 <=? v)%Z = true -> avail s' < avail s).
 
-Lemma netget_code_pos l c : netget_code l = Some c -> (0 <=? c)%Z = true.
-Proof.
-  unfold netget_code. destruct (_ && _); [|discriminate].
-  destruct (_ && _ && _ && _) eqn:E; [|discriminate].
-  apply andb_true_iff in E as [E Eq2]. apply andb_true_iff in E as [E Eq1]. apply andb_true_iff in E as [Er1 Er2].
-  destruct (_ && _) eqn:E3; [|discriminate]. apply andb_true_iff in E3 as [E3 E4].
-  intros H. inversion H; subst. apply Z.leb_le. apply Z.leb_le in Er1, Eq1, E3.
-  unfold GenQremote.QR_NG_D0_MIN in Er1. lia.
-Qed.
-
 Lemma netget0_ns s : good s -> ns (get_ns s) (netget0 s).
 Proof.
   intros Hg. unfold netget0. eapply ns_bind; [apply nread_ns; exact Hg|].
